@@ -36,26 +36,26 @@ var (
 
 // Scenario is one execution of a real entry point over a scripted environment.
 type Scenario struct {
-	ID        string `json:"id"`
-	Twin      string `json:"twin"`    // id of the noise-free twin scenario that ran directly before
-	Kind      string `json:"kind"`    // wire (default) | engine | multi | ...
-	Variant   string `json:"variant"` // icmp4 icmp6 udp4 udp6 tcp tcp_paris sack
-	Entry     string `json:"entry"`   // proto (default) | run | http
-	Strict    bool   `json:"strict"`
-	Min       int    `json:"min"`
-	Max       int    `json:"max"`
-	TimeoutMs int    `json:"timeout_ms"`
-	DelayMs   int    `json:"delay_ms"`
-	PollMs    int    `json:"poll_ms"`
-	Target    string `json:"target"`
-	Port      int    `json:"port"`
-	IPIDBase  *int64 `json:"ipid_base"`
-	EchoBase  *int64 `json:"echo_base"`
-	SeqBase   *int64 `json:"seq_base"`
+	ID        string  `json:"id"`
+	Twin      string  `json:"twin"`    // id of the noise-free twin scenario that ran directly before
+	Kind      string  `json:"kind"`    // wire (default) | engine | multi | ...
+	Variant   string  `json:"variant"` // icmp4 icmp6 udp4 udp6 tcp tcp_paris sack
+	Entry     string  `json:"entry"`   // proto (default) | run | http
+	Strict    bool    `json:"strict"`
+	Min       int     `json:"min"`
+	Max       int     `json:"max"`
+	TimeoutMs int     `json:"timeout_ms"`
+	DelayMs   int     `json:"delay_ms"`
+	PollMs    int     `json:"poll_ms"`
+	Target    string  `json:"target"`
+	Port      int     `json:"port"`
+	IPIDBase  *int64  `json:"ipid_base"`
+	EchoBase  *int64  `json:"echo_base"`
+	SeqBase   *int64  `json:"seq_base"`
 	SeqBase32 *[2]int `json:"seq_base32"` // <<hi16, lo16>> form used by TLC-generated scenarios
 	ISN32     *[2]int `json:"isn32"`
-	Label     string `json:"label"`
-	CancelUs  int64  `json:"cancel_us"`
+	Label     string  `json:"label"`
+	CancelUs  int64   `json:"cancel_us"`
 	wire.Script
 	Run    *RunParams     `json:"run"`
 	Mix    []*RunParams   `json:"mix"`
@@ -163,11 +163,11 @@ func (s *Scenario) defaults() {
 }
 
 type hopOut struct {
-	TTL   int    `json:"ttl"`
-	Addr  string `json:"addr"`
-	RTTUs int64  `json:"rtt_us"`
-	Dest  bool   `json:"dest"`
-	Reach bool   `json:"reach"`
+	TTL   int      `json:"ttl"`
+	Addr  string   `json:"addr"`
+	RTTUs int64    `json:"rtt_us"`
+	Dest  bool     `json:"dest"`
+	Reach bool     `json:"reach"`
 	Names []string `json:"names"`
 }
 
